@@ -510,6 +510,80 @@ func c10Run(rc *core.RunCtx) {
 			}
 		}
 	}
+	// two keyword arguments at once (the combinations builtins treat specially: key with default,
+	// sep with end, ...) for the callables of the builtins module
+	rc.Part = "kw2calls"
+	{
+		var tiny []int
+		for i, v := range V {
+			switch v.name {
+			case "None", "0", "'a'", "[]", "[1,2]", "builtin-len", "lambda", "liar":
+				tiny = append(tiny, i)
+			}
+		}
+		callCode2, err := py.Compile("__r = __f(*__a, **__k)\n", "<c10kw2>", py.ExecMode, 0, true)
+		if err != nil {
+			panic(err)
+		}
+		for _, cl := range calls {
+			if !strings.HasPrefix(cl.name, "builtins.") {
+				continue
+			}
+			for a := 0; a < len(kws); a++ {
+				for b := a + 1; b < len(kws); b++ {
+					for _, i := range tiny {
+						for _, j := range tiny {
+							for _, p := range append([]int{-1}, tiny...) {
+								if rc.Expired() || rc.Done() {
+									return
+								}
+								if rc.Quick() && p >= 0 && (i+j+p)%2 != 0 {
+									continue
+								}
+								if !rc.Take() {
+									continue
+								}
+								cl, ka, kb, va, vb := cl, kws[a], kws[b], V[i], V[j]
+								desc := cl.name + "("
+								var pv *c10val
+								if p >= 0 {
+									pv = &V[p]
+									desc += pv.name + ", "
+								}
+								desc += ka + "=" + va.name + ", " + kb + "=" + vb.name + ")"
+								f := core.Fields{"part": "kw2calls", "callable": cl.name, "kw": ka + "," + kb, "kwv": va.name + "," + vb.name}
+								if pv != nil {
+									f["args"] = pv.name
+								}
+								rc.Guard(f, func() string { return desc }, func() {
+									fn, ok := cl.get(c)
+									if !ok {
+										rc.Eval("no-such-attribute", "")
+										return
+									}
+									args := py.Tuple{}
+									if pv != nil {
+										args = py.Tuple{pv.mk(c)}
+									}
+									k := py.StringDict{ka: va.mk(c), kb: vb.mk(c)}
+									for _, x := range []py.Object{k[ka], k[kb]} {
+										if x == nil {
+											rc.Eval("value-unavailable", "")
+											return
+										}
+									}
+									gl := c.base.Copy()
+									gl["__f"], gl["__a"], gl["__k"] = fn, args, k
+									_, err := c.ev.ctx.RunCode(callCode2, gl, gl, nil)
+									rc.Eval(outcomeOf(err), desc)
+								})
+							}
+						}
+					}
+				}
+			}
+		}
+	}
 	// operators, subscripts, attributes, iteration, truth: Go API and compiled source
 	rc.Part = "operators"
 	type binop struct {
@@ -676,6 +750,37 @@ func c10Run(rc *core.RunCtx) {
 			}
 		}
 	}
+	// the special attributes of a function object replaced by any value, then the function called
+	rc.Part = "function-attributes"
+	for _, attr := range []string{"__defaults__", "__kwdefaults__", "__code__", "__name__", "__qualname__", "__doc__", "__dict__", "__annotations__", "__globals__", "__closure__", "__module__"} {
+		for _, v := range V {
+			for _, alt := range []string{"x", "(1, 2, 3)", "(1,)", "()", "{'k': 5}", "{'zz': 5}", "None"} {
+				if rc.Expired() || rc.Done() {
+					return
+				}
+				if alt != "x" && (v.name != "None" || attr != "__defaults__" && attr != "__kwdefaults__") {
+					continue
+				}
+				if !rc.Take() {
+					continue
+				}
+				attr, v, alt := attr, v, alt
+				src := "def g(a, b=0, *c, k=1, **d):\n    return (a, b, c, k, d)\ndef h(a=1, b=2):\n    return (a, b)\nfor fn in (g, h):\n    try:\n        fn." + attr + " = " + alt +
+					"\n    except Exception:\n        pass\n    for call in (lambda: fn(), lambda: fn(5), lambda: fn(5, 6), lambda: fn(b=9), lambda: fn(5, 6, 7, k=8, z=9), lambda: repr(fn), lambda: fn." + attr + "):\n        try:\n            call()\n        except Exception:\n            pass\n"
+				f := core.Fields{"part": "function-attributes", "attr": attr, "a": v.name, "alt": alt}
+				d := "fn." + attr + " = " + alt + " (x=" + v.name + "), then calls"
+				rc.Guard(f, func() string { return d + "\n" + src }, func() {
+					x := v.mk(c)
+					if x == nil {
+						rc.Eval("value-unavailable", "")
+						return
+					}
+					err := runSrc(strings.ReplaceAll(src, " = x\n", " = a\n"), py.ExecMode, x, py.None, py.None)
+					rc.Eval(outcomeOf(err), d)
+				})
+			}
+		}
+	}
 	// callbacks that mutate the container while a builtin or the VM is working on it
 	rc.Part = "mutating-callbacks"
 	{
@@ -824,7 +929,7 @@ func init() {
 	core.Register(&core.Check{
 		ID:    "C10",
 		Level: "model_checking",
-		Rule: "callables = every entry of builtins plus every attribute of every built-in type's dictionary (reached through an instance and through the class) x all argument tuples of arity 0-2 over a universe of ~70 values of every type (None, bools, ints at the word limits and beyond, floats incl. inf/nan/-0.0, complex, str incl. non-BMP, bytes, tuples, lists, dicts, sets, ranges, slices, generators in every state, iterators, functions, methods, classes, instances, instances whose special methods return values of the wrong type or raise, modules, exceptions, code with and without free variables, Ellipsis, NotImplemented, self-referential list/dict/set, iter(callable, tuple sentinel)) - thorough: arity 3 over a 21-value sub-universe - and one keyword argument; " +
+		Rule: "callables = every entry of builtins plus every attribute of every built-in type's dictionary (reached through an instance and through the class) x all argument tuples of arity 0-2 over a universe of ~70 values of every type (None, bools, ints at the word limits and beyond, floats incl. inf/nan/-0.0, complex, str incl. non-BMP, bytes, tuples, lists, dicts, sets, ranges, slices, generators in every state, iterators, functions, methods, classes, instances, instances whose special methods return values of the wrong type or raise, modules, exceptions, code with and without free variables, Ellipsis, NotImplemented, self-referential list/dict/set, iter(callable, tuple sentinel)) - thorough: arity 3 over a 21-value sub-universe - one keyword argument, and for the builtins module every pair of keywords out of 10 names over an 8-value sub-universe; the 11 special attributes of a function object replaced by every universe value (and by tuples/dicts of other lengths), then the function called in five ways; " +
 			"every binary/augmented/unary operator, subscript, slice, attribute, call, iteration, format and 30 two-operand statement forms over the universe squared, through the Go API and as compiled source; 58 consumers (sort/sorted/min/max with key, map/filter/zip/enumerate, comprehensions, for, unpacking, star-call, slice assignment from an iterator, suspended iterators and generators, index objects whose __index__ runs the mutation in item/slice get, set and delete and in repetition) x callbacks that shrink, empty, grow, replace or sort the very container being processed (list, dict, set). 49 programs that recurse without bound through every way one Python-level action starts another (calls, lambdas, special methods, generators, map/sorted/filter callbacks, eval/exec, with, decorators, properties, super) or build 3000-deep nested containers. Fresh values per case. Oracle: the host neither panics, aborts nor hangs; any Python exception is acceptable. Every case is non-trivial.",
 		Run:         c10Run,
 		HangAfterS:  25,
